@@ -137,7 +137,7 @@ class Framework:
                 lines.append('VIOLATION property=%s replay=%s' % (self.pid, rp))
                 lines.append('  ' + v['what'])
         for k in self.known:
-            if k.get('status') == 'known' and k['key'] not in self.known_seen and not k.get('reported_by_other_tier'):
+            if k.get('status') == 'known' and k['key'] not in self.known_seen:
                 self.notes.append('known finding not met on this run (informational): ' + k['key'])
         wall = time.time() - self.t0
         self.write_evidence(level, technique, wall, len(new_viol), extra)
@@ -200,15 +200,36 @@ class Framework:
 
 
 def load_known(pid):
-    p = os.path.join(VERIF, 'known_findings.json')
+    """known_findings.txt (committed, never written at run time). Lines:
+         known: property=<id> key=<key> <what fails>
+         fixed: property=<id> <commit> <what failed>
+       A `fixed` line suppresses nothing."""
+    p = os.path.join(VERIF, 'known_findings.txt')
+    out = []
     if not os.path.exists(p):
-        return []
-    return [k for k in json.load(open(p)).get('findings', []) if k.get('property') == pid]
+        return out
+    for line in open(p):
+        line = line.strip()
+        if not line or line.startswith('#'):
+            continue
+        status, _, rest = line.partition(': ')
+        if status not in ('known', 'fixed'):
+            continue
+        parts = rest.split(' ')
+        prop = parts[0].split('=', 1)[1] if parts and parts[0].startswith('property=') else None
+        if prop != pid:
+            continue
+        if status == 'known':
+            key = parts[1].split('=', 1)[1] if len(parts) > 1 and parts[1].startswith('key=') else None
+            out.append({'property': prop, 'status': 'known', 'key': key, 'what_fails': ' '.join(parts[2:])})
+        else:
+            out.append({'property': prop, 'status': 'fixed', 'key': None, 'commit': parts[1] if len(parts) > 1 else '', 'what_fails': ' '.join(parts[2:])})
+    return out
 
 
 def match_known(known, key):
     for k in known:
-        if k['key'] == key:
+        if k.get('status') == 'known' and k['key'] == key:
             return k
     return None
 
